@@ -21,6 +21,7 @@ import traceback
 VERIF = os.path.dirname(os.path.dirname(os.path.abspath(__file__)))
 REPO = os.environ.get("VERIF_REPO", "/repo")
 NPROC = int(os.environ.get("VERIF_NPROC", "16"))
+ENGINE_PAR = int(os.environ.get("VERIF_ENGINE_PAR", "3"))
 GUARD = "BUIDL_VERIF"
 
 TOY_CURVES = {  # (p, n): y^2 = x^3 + 7 over F_p, p % 4 == 3, prime order n, no point with x = 0
@@ -451,18 +452,33 @@ def run_property(prop, modname, tier, seed, level, assumptions, only=None):
     total = Res()
     reports = []
     skipped_engines = []
+    # toy copies are built once, sequentially; then up to ENGINE_PAR engines run side by side, each on its own pool of
+    # fresh worker processes (the tail of one engine overlaps the start of the next); results are merged in engine order
+    from concurrent.futures import ThreadPoolExecutor
+
+    runnable = []
     for e in engines:
         try:
-            r, rep = explore(modname, e, tier, seed)
+            if e.toy:
+                build_toy(*e.toy)
+            runnable.append(e)
         except ToySeamMissing as ex:
             skipped_engines.append({"engine": e.name, "reason": str(ex)})
-            continue
-        total.merge(r)
-        reports.append(rep)
+
+    def _one(e):
+        r, rep = explore(modname, e, tier, seed)
         sys.stderr.write(
             f"[{prop}] {e.name}: cases={rep['cases']} eval={rep['evaluations']} nontrivial={rep['distinct_nontrivial']} "
             f"states={rep['states']} trans={rep['transitions']} viol={r.n_violations} {rep['wall_s']}s\n"
         )
+        return r, rep
+
+    with ThreadPoolExecutor(max_workers=max(1, ENGINE_PAR)) as tp:
+        futs = [tp.submit(_one, e) for e in runnable]
+        for f in futs:
+            r, rep = f.result()
+            total.merge(r)
+            reports.append(rep)
     known = load_known()
     new_v, known_v = [], {}
     for v in total.violations:
